@@ -191,7 +191,9 @@ func buildUniverse() (*universe, error) {
 	h := typeutil.MakeHasher()
 	byHash := map[uint32][]int{}
 	for i := range u.types {
-		if u.class[i] == i {
+		// only address-free hashes: a named type hashes by the address of its TypeName,
+		// so groups containing one would differ from process to process
+		if u.class[i] == i && !hasNamed(u.types[i], 0) {
 			hv := h.Hash(u.types[i])
 			byHash[hv] = append(byHash[hv], i)
 		}
@@ -227,4 +229,48 @@ func (u *universe) hashLaw() (bad string, pairs int) {
 		}
 	}
 	return
+}
+
+// hasNamed reports whether a type mentions a named type or type parameter anywhere.
+func hasNamed(t types.Type, depth int) bool {
+	if depth > 8 {
+		return true
+	}
+	switch t := t.(type) {
+	case *types.Basic:
+		return false
+	case *types.Alias:
+		return true
+	case *types.Named, *types.TypeParam:
+		return true
+	case *types.Pointer:
+		return hasNamed(t.Elem(), depth+1)
+	case *types.Slice:
+		return hasNamed(t.Elem(), depth+1)
+	case *types.Array:
+		return hasNamed(t.Elem(), depth+1)
+	case *types.Chan:
+		return hasNamed(t.Elem(), depth+1)
+	case *types.Map:
+		return hasNamed(t.Key(), depth+1) || hasNamed(t.Elem(), depth+1)
+	case *types.Struct:
+		for i := 0; i < t.NumFields(); i++ {
+			if hasNamed(t.Field(i).Type(), depth+1) {
+				return true
+			}
+		}
+		return false
+	case *types.Tuple:
+		for i := 0; i < t.Len(); i++ {
+			if hasNamed(t.At(i).Type(), depth+1) {
+				return true
+			}
+		}
+		return false
+	case *types.Signature:
+		return t.TypeParams().Len() > 0 || hasNamed(t.Params(), depth+1) || hasNamed(t.Results(), depth+1)
+	case *types.Interface:
+		return t.NumMethods() > 0 || t.NumEmbeddeds() > 0
+	}
+	return true
 }
